@@ -147,9 +147,10 @@ TEXTS = {
                 "through a WeakSender) is tied to the code by acceptance of real traces with tarm/fire/tend events "
                 "emitted by the controlled executor.",
         "design_ref": "DESIGN.md §5 C10",
-        "note": "Partial: leak-freedom at quiescence and tick/arm accounting (monC10q) are trace-checked, not proved; "
-                "'never prolong the actor' is carried by C05's handle/timer clause on the same traces. Trusted: Lean "
-                "kernel + axioms; virtual time in place of tokio sleep.",
+        "note": "Leak-freedom at quiescence and tick/wake-up accounting (monC10q: every tick taken up was pushed at a "
+                "wake-up that re-armed the timer; at a quiescent point no timer task is left) are theorem C10q_holds "
+                "(no hypothesis). 'Never prolong the actor' is C05's timer clause (proved). Trusted: Lean kernel + "
+                "axioms; virtual time in place of tokio sleep.",
         "technique": "Lean 4 proof (relational timer-table simulation, exhaustive step case analysis) + checked trace correspondence",
     },
     "C11": {
@@ -207,9 +208,11 @@ TEXTS = {
                 "each. The stream loop of the model is tied to create_loop_on_stream by acceptance of real traces "
                 "driven through a harness-controlled stream.",
         "design_ref": "DESIGN.md §5 C13",
-        "note": "Partial: the quiescence clauses (monC13q: terminates on stream end / stop / last handle drop even if "
-                "the stream never ends; all yielded items handled) are checked on real traces, not proved. Trusted: "
-                "Lean kernel + axioms; hand-written stream-loop model validated by trace acceptance.",
+        "note": "The quiescence clauses (monC13q: at a quiescent point without failure the actor has terminated gracefully "
+                "if the stream ended, a stop was issued or no strong handle is left - even if the stream never ends - "
+                "and otherwise every item yielded so far has been handled) are theorem C13q_holds (WellWired05, fresh "
+                "operation ids). Trusted: Lean kernel + axioms; hand-written stream-loop model validated by trace "
+                "acceptance.",
         "technique": "Lean 4 proof (item queue refinement + phase invariants by exhaustive step case analysis) + checked trace correspondence",
     },
     "C19": {
@@ -268,8 +271,9 @@ TEXTS = {
                 "phase machine is tied to environment.rs / restart_strategy.rs by acceptance of real traces over "
                 "termination cause x mailbox kind x strategy x plain/stream.",
         "design_ref": "DESIGN.md §5 C03",
-        "note": "Partial: the liveness-flavoured clause (graceful end reached by quiescence, monC03q) is checked on "
-                "real traces, not proved. Trusted: Lean kernel + axioms propext/Quot.sound; hand-written phase "
+        "note": "The quiescence clause (after an accepted stop and absent failures the task has ended right after a "
+                "completed stopped(), monC03q) is theorem C03q_holds (no hypothesis): an accepted stop request stays in "
+                "the mailbox of a live loop until the loop takes it. Trusted: Lean kernel + axioms; hand-written phase "
                 "machine validated by trace acceptance; harness callback logging (drop guards).",
         "technique": "Lean 4 proof (phase/monitor simulation by exhaustive step case analysis) + checked trace correspondence",
     },
